@@ -154,11 +154,12 @@ def verdict(args, mod, res, known, t0, write_evidence):
 
     replay_paths = []
     if new_sigs:
-        os.makedirs(os.path.join(common.VERIF_ROOT, "replays"), exist_ok=True)
+        rdir = os.environ.get("VERIF_REPLAY_DIR", os.path.join(common.VERIF_ROOT, "replays"))
+        os.makedirs(rdir, exist_ok=True)
     for sig, vs in new_sigs.items():
         v = vs[0]
         fp = common.fingerprint([prop, sig, v["case"]], 12)
-        path = os.path.join(common.VERIF_ROOT, "replays", "%s-%s.json" % (prop, fp))
+        path = os.path.join(rdir, "%s-%s.json" % (prop, fp))
         if not args.replay:
             with open(path, "w") as f:
                 json.dump({"property": prop, "locus": v["locus"], "kind": v["kind"], "what": v["what"],
@@ -219,8 +220,9 @@ def verdict(args, mod, res, known, t0, write_evidence):
             "wall_s": round(wall, 2),
             "violations": len(new_sigs),
         }
-        os.makedirs(os.path.join(common.VERIF_ROOT, "evidence"), exist_ok=True)
-        evpath = os.path.join(common.VERIF_ROOT, "evidence", prop + ".json")
+        edir = os.environ.get("VERIF_EVIDENCE_DIR", os.path.join(common.VERIF_ROOT, "evidence"))
+        os.makedirs(edir, exist_ok=True)
+        evpath = os.path.join(edir, prop + ".json")
         try:
             import jsonschema
 
